@@ -91,7 +91,7 @@ func cmdCheck(args []string) {
 	if !ok {
 		fatal("property %s not in registry", *prop)
 	}
-	work := filepath.Join(verifDir, ".work", *prop+"-"+*tier)
+	work := filepath.Join(outDir, ".work", *prop+"-"+*tier)
 	os.RemoveAll(work)
 	os.MkdirAll(work, 0o755)
 	if !*keep {
@@ -244,7 +244,7 @@ func cmdCheck(args []string) {
 		harness string
 	}
 	var vecs []vecRef
-	evReplayDir := filepath.Join(verifDir, "evidence", "replay")
+	evReplayDir := filepath.Join(outDir, "evidence", "replay")
 	os.MkdirAll(evReplayDir, 0o755)
 	// remove stale replay vectors of this property
 	if old, _ := filepath.Glob(filepath.Join(evReplayDir, *prop+"-*.json")); old != nil {
@@ -431,7 +431,7 @@ func cmdCheck(args []string) {
 		"wall_s":      time.Since(start).Seconds(),
 		"violations":  nViol,
 	}
-	writeJSON(filepath.Join(verifDir, "evidence", *prop+".json"), ev)
+	writeJSON(filepath.Join(outDir, "evidence", *prop+".json"), ev)
 
 	// ---- verdict ----
 	fmt.Printf("property %s tier %s: %d instances, %d paths, %d obligations (%d discharged), %d queries, solver %.1fs, wall %.1fs\n",
